@@ -23,7 +23,20 @@ Verdict(r) ==
   ELSE IF r.auto.res # <<>> /\ r.reparse # r.auto THEN "autodetection-not-reproducible"
   ELSE IF r.region # Nothing /\ r.region # r.asLocale THEN "region-differs-from-locale"
   ELSE "ok"
-Check(r) == LET v == Verdict(r) IN IF v = "ok" THEN TRUE ELSE PrintT(<<"REJECT", r.tid, "prop", v, Expected(r)>>)
+\* refinement-on-trace of the locale loop (Pipeline.tla): the locales for which a parse was attempted must
+\* come in the order the loop is specified to try them (a subsequence of `order`: inapplicable ones are
+\* skipped), every attempt but the last fails, and the loop stops at the first success
+RECURSIVE IsSubseq(_, _, _, _)
+IsSubseq(a, i, b, j) == IF i > Len(a) THEN TRUE ELSE IF j > Len(b) THEN FALSE
+                        ELSE IF a[i] = b[j] THEN IsSubseq(a, i + 1, b, j + 1) ELSE IsSubseq(a, i, b, j + 1)
+TriesOK(r) ==
+  LET names == [i \in 1..Len(r.tries) |-> r.tries[i][1]] IN
+  /\ IsSubseq(names, 1, r.order, 1)
+  /\ \A i \in 1..Len(r.tries) : (r.tries[i][2] <=> (i = Len(r.tries) /\ r.multi.res # <<>>))
+  /\ (r.multi.res # <<>> => Len(r.tries) > 0 /\ r.tries[Len(r.tries)][1] = r.multi.loc)
+Check(r) == LET v == Verdict(r) IN
+            /\ (IF v = "ok" THEN TRUE ELSE PrintT(<<"REJECT", r.tid, "prop", v, Expected(r)>>))
+            /\ (IF r.bound /\ r.exc = "" /\ ~TriesOK(r) THEN PrintT(<<"REJECT", r.tid, "abs", "locale-loop-order", r.tries>>) ELSE TRUE)
 
 TInit == l = 0
 TNext == l < Len(Tr) /\ l' = l + 1 /\ Check(Tr[l + 1])
